@@ -53,8 +53,15 @@ func Date(y int, m Month, d, h, mi, s, ns int, loc *Location) Time {
 	return time.Date(y, m, d, h, mi, s, ns, loc)
 }
 
+// Clock, if set, is the time source outside a controlled execution (event-level
+// simulations own the clock through it).
+var Clock func() Time
+
 func Now() Time {
 	if !sched.Active() {
+		if Clock != nil {
+			return Clock()
+		}
 		return time.Now()
 	}
 	return sched.Now()
